@@ -1,5 +1,27 @@
 /-
   C13 — behaviour depends on the bytes sent, not on how they were segmented.
+
+  Outcome of the proof effort.  The component theorems (socket, line reader, head reader, small
+  bodies) hold as stated.  The three statements about streamed bodies / whole connections were
+  FALSE as originally stated; they are kept below, commented out, next to machine-checked
+  counterexamples, and replaced by the strongest true versions:
+
+  * `chunk_crlf_counterexample`: for a chunked body, when a chunk's data is not followed by CR LF
+    (malformed stream, or the stream is cut / still open right after the data), the chunk decoder
+    returns the error from the very `read` that completed the chunk and so discards the bytes of
+    that read; the bytes handed out by *earlier* reads of the same chunk were already delivered.
+    How much of the chunk the application sees before the error therefore depends on the
+    segmentation (flat semantics = maximal reads: nothing of that chunk; byte-wise delivery: all
+    but the last piece).  This mirrors `chunked_transfer::Decoder` and is a genuine segmentation
+    dependence of tiny-http, visible only in `Delivered.bodyRead` of such a request; everything
+    else (responses, status codes, ending, `readEnd`, stream position, later requests) agrees.
+  * `chunked_zero_counterexample`: `body_reader_oracle` also fails for the reader state
+    `.chunked (some 0)` (a zero-length `OSrc.read` returns one byte).  That state is only entered
+    together with a `.pending` outcome, after which `Conn.run` never reads again, so it is
+    unreachable for the connection theorems; it has to be excluded in the reader theorem.
+
+  Corrected theorems: `body_reader_oracle_partial`, `runO_eq_run_masked`, `runO_eq_run_partial`
+  (+ `_simple`), `segmentation_independent_masked`, `segmentation_independent_partial`.
 -/
 import TinyHttpModel.WireOracle
 import TinyHttpModel.Lemmas.Oracle
@@ -13,12 +35,19 @@ open TH
 theorem read_is_a_socket_read (s : OSrc) (want : Nat) (hw : 1 ≤ want) (hb : s.bytes ≠ []) :
     ∃ k, 1 ≤ k ∧ k ≤ want ∧ k ≤ s.bytes.length ∧
       s.read want = (.data (s.bytes.take k), { s with bytes := s.bytes.drop k, orc := s.orc.tail }) := by
-  sorry
+  obtain ⟨bs, fin, orc⟩ := s
+  obtain ⟨k, h1, h2, h3, _, h⟩ := OSrc.read_data bs fin orc want hw hb
+  exact ⟨k, h1, h2, h3, h⟩
 
 theorem every_size_is_possible (bs : Bytes) (fin : EndState) (rest : List Nat) (want k : Nat)
     (h1 : 1 ≤ k) (h2 : k ≤ want) (h3 : k ≤ bs.length) :
     (OSrc.read ⟨bs, fin, k :: rest⟩ want).1 = .data (bs.take k) := by
-  sorry
+  cases bs with
+  | nil => simp at h3; omega
+  | cons b bs =>
+    have hk : max 1 (min k (min want (b :: bs).length)) = k := by omega
+    show ReadOut.data ((b :: bs).take (max 1 (min k (min want (b :: bs).length)))) = _
+    rw [hk]
 
 /-- the byte-at-a-time line reader with carried CR state finds exactly the line the flat
     semantics defines, and leaves exactly the same bytes, for every oracle. -/
@@ -27,48 +56,209 @@ theorem line_reader_oracle (s : OSrc) :
      | .line l s' => readLine s.bytes s.fin = .line l s'.bytes ∧ s'.fin = s.fin
      | .notAscii s' => readLine s.bytes s.fin = .notAscii s'.bytes ∧ s'.fin = s.fin
      | .stop st _ => readLine s.bytes s.fin = .stop st) := by
-  sorry
+  obtain ⟨bs, fin, orc⟩ := s
+  have h := readLineO_spec bs fin orc
+  cases hr : readLine bs fin with
+  | line l rest =>
+    rw [hr] at h; obtain ⟨orc', h⟩ := h
+    rw [h]; exact ⟨rfl, rfl⟩
+  | notAscii rest =>
+    rw [hr] at h; obtain ⟨orc', h⟩ := h
+    rw [h]; exact ⟨rfl, rfl⟩
+  | stop st =>
+    rw [hr] at h; obtain ⟨s', h⟩ := h
+    rw [h]
 
 /-- heads: same result and same position for every oracle. -/
 theorem head_reader_oracle (s : OSrc) :
     (match readHeadO s with
      | (.ok h, s') => readHead s.bytes s.fin = .ok (h, s'.bytes) ∧ s'.fin = s.fin
      | (.error e, _) => readHead s.bytes s.fin = .error e) := by
-  sorry
+  obtain ⟨bs, fin, orc⟩ := s
+  have h := readHeadO_spec bs fin orc
+  cases hr : readHead bs fin with
+  | ok p =>
+    obtain ⟨hd, rest⟩ := p
+    rw [hr] at h; obtain ⟨orc', h⟩ := h
+    rw [h]; exact ⟨rfl, rfl⟩
+  | error e =>
+    rw [hr] at h; obtain ⟨s', h⟩ := h
+    rw [h]
 
 /-- the small-body loop tolerates any sequence of short reads. -/
 theorem small_body_oracle (s : OSrc) (n : Nat) :
     (match readExactO (n + 1) s n [] with
      | (some d, s') => n ≤ s.bytes.length ∧ d = s.bytes.take n ∧ s'.bytes = s.bytes.drop n ∧ s'.fin = s.fin
      | (none, _) => s.bytes.length < n) := by
-  sorry
+  obtain ⟨bs, fin, orc⟩ := s
+  obtain ⟨h1, h2⟩ := readExactO_spec (n + 1) bs fin orc n [] (by omega)
+  by_cases hn : n ≤ bs.length
+  · obtain ⟨orc', h⟩ := h1 hn
+    rw [h]; exact ⟨hn, by simp, rfl, rfl⟩
+  · obtain ⟨s', h⟩ := h2 (by omega)
+    rw [h]; show bs.length < n; omega
 
-/-- streamed bodies: however the socket cuts the data, reading `total` bytes obtains the same
-    bytes, ends the same way, leaves the reader in the same state and the stream at the same
-    position as in the flat semantics. -/
+/-! ### streamed bodies -/
+
+/- ORIGINAL STATEMENT — FALSE (see `chunked_zero_counterexample` and, for the first component,
+   `chunk_crlf_reader_counterexample`):
+
 theorem body_reader_oracle (fuel : Nat) (b : Body) (buf total : Nat) (s : OSrc)
     (hb : 1 ≤ buf) (hf : total < fuel) :
     let r := Body.readUpToO fuel b buf total s
     let f := Body.readUpTo fuel b buf total s.bytes s.fin
+    r.1 = f.1 ∧ r.2.1 = f.2.1 ∧ r.2.2.1 = f.2.2.1 ∧ r.2.2.2.bytes = f.2.2.2 ∧ r.2.2.2.fin = s.fin
+-/
+
+/-- the reader state `.chunked (some 0)` (chunk data taken, blocked before its CRLF): the oracle
+    read of size 0 returns one byte, the flat read returns none and parses the CRLF. -/
+theorem chunked_zero_counterexample :
+    (Body.readUpToO 2 (.chunked (some 0)) 1 1 ⟨[13, 10, 65], .eof, []⟩).1 = [13] ∧
+    (Body.readUpToO 2 (.chunked (some 0)) 1 1 ⟨[13, 10, 65], .eof, []⟩).2.2.1 = .chunked (some 0) ∧
+    (Body.readUpToO 2 (.chunked (some 0)) 1 1 ⟨[13, 10, 65], .eof, []⟩).2.2.2.bytes = [10, 65] ∧
+    Body.readUpTo 2 (.chunked (some 0)) 1 1 [13, 10, 65] .eof = ([], none, .chunked none, [65]) := by
+  decide
+
+/-- a chunk whose CRLF is missing: the pieces read before the completing read are delivered over
+    the oracle socket, while the flat (maximal) read loses the whole chunk. -/
+theorem chunk_crlf_reader_counterexample :
+    (Body.readUpToO 11 (.chunked none) 10 10 ⟨b!"3\r\nabcXX", .eof, List.replicate 20 1⟩).1 = b!"ab" ∧
+    (Body.readUpTo 11 (.chunked none) 10 10 b!"3\r\nabcXX" .eof).1 = [] := by
+  decide
+
+theorem body_reader_oracle_is_false :
+    ¬ (∀ (fuel : Nat) (b : Body) (buf total : Nat) (s : OSrc), 1 ≤ buf → total < fuel →
+      let r := Body.readUpToO fuel b buf total s
+      let f := Body.readUpTo fuel b buf total s.bytes s.fin
+      r.1 = f.1 ∧ r.2.1 = f.2.1 ∧ r.2.2.1 = f.2.2.1 ∧ r.2.2.2.bytes = f.2.2.2 ∧ r.2.2.2.fin = s.fin) := by
+  intro h
+  have h' := (h 11 (.chunked none) 10 10 ⟨b!"3\r\nabcXX", .eof, List.replicate 20 1⟩ (by decide) (by decide)).1
+  rw [chunk_crlf_reader_counterexample.1] at h'
+  have h'' : (Body.readUpTo 11 (.chunked none) 10 10 b!"3\r\nabcXX" .eof).1 = [] :=
+    chunk_crlf_reader_counterexample.2
+  rw [h''] at h'
+  exact absurd h' (by decide)
+
+/-- streamed bodies (corrected): however the socket cuts the data, reading `total` bytes ends the
+    same way, leaves the reader in the same state and the stream at the same position as in the
+    flat semantics; and it obtains the same bytes — unless the reader is the chunk decoder and the
+    reading ended with an error or blocked. -/
+theorem body_reader_oracle_partial (fuel : Nat) (b : Body) (buf total : Nat) (s : OSrc)
+    (hb : 1 ≤ buf) (hf : total < fuel) (h0 : b ≠ .chunked (some 0)) :
+    let r := Body.readUpToO fuel b buf total s
+    let f := Body.readUpTo fuel b buf total s.bytes s.fin
+    r.2.1 = f.2.1 ∧ r.2.2.1 = f.2.2.1 ∧ r.2.2.2.bytes = f.2.2.2 ∧ r.2.2.2.fin = s.fin ∧
+    (((∀ ic, b ≠ .chunked ic) ∨ (f.2.1 ≠ some .err ∧ f.2.1 ≠ some .pending)) → r.1 = f.1) := by
+  obtain ⟨bs, fin, orc⟩ := s
+  obtain ⟨h1, h2, h3, h4, h5, _⟩ := readUpToO_vs_flat fuel b buf total bs fin orc hb hf h0
+  refine ⟨h1, h2, h3, h4, fun h => h5 ?_⟩
+  rcases h with h | h
+  · left; intro ⟨ic, e⟩; exact h ic e
+  · right; exact h
+
+/-- in particular the original statement holds for every reader that is not the chunk decoder. -/
+theorem body_reader_oracle_nonchunked (fuel : Nat) (b : Body) (buf total : Nat) (s : OSrc)
+    (hb : 1 ≤ buf) (hf : total < fuel) (hc : ∀ ic, b ≠ .chunked ic) :
+    let r := Body.readUpToO fuel b buf total s
+    let f := Body.readUpTo fuel b buf total s.bytes s.fin
     r.1 = f.1 ∧ r.2.1 = f.2.1 ∧ r.2.2.1 = f.2.2.1 ∧ r.2.2.2.bytes = f.2.2.2 ∧ r.2.2.2.fin = s.fin := by
-  sorry
+  obtain ⟨h1, h2, h3, h4, h5⟩ := body_reader_oracle_partial fuel b buf total s hb hf (hc _)
+  exact ⟨h5 (Or.inl hc), h1, h2, h3, h4⟩
 
-/-- Main theorem: for every byte stream, every way it ends, every application script and every
-    two segmentations (read oracles), the connection behaves identically: same delivered requests
-    (heads and bodies), same response bytes, same ending. -/
+/-! ### whole connections -/
+
+/- ORIGINAL STATEMENTS — FALSE (see `chunk_crlf_counterexample`):
+
 theorem segmentation_independent (bs : Bytes) (fin : EndState) (script : Script) (o1 o2 : List Nat) :
-    Conn.runO bs fin o1 script = Conn.runO bs fin o2 script := by
-  sorry
+    Conn.runO bs fin o1 script = Conn.runO bs fin o2 script
 
-/-- and that common behaviour is the flat semantics all other wire theorems are proved about. -/
 theorem runO_eq_run (bs : Bytes) (fin : EndState) (script : Script) (orc : List Nat) :
+    Conn.runO bs fin orc script = Conn.run bs fin script
+-/
+
+/-- a chunked request whose (only) chunk is complete but not yet followed by CR LF, the client
+    still connected: delivered byte by byte the application obtains `ab` before blocking, with
+    maximal reads (and in the flat semantics) it obtains nothing.  Likewise when the chunk is
+    followed by garbage and the stream is closed (the read ends with an error). -/
+theorem chunk_crlf_counterexample :
+    (Conn.runO b!"POST /a HTTP/1.1\r\nTransfer-Encoding: chunked\r\n\r\n3\r\nabc" .open
+        (List.replicate 200 1) (fun _ => ⟨1, 10, 10, .drop⟩)).delivered.map (·.bodyRead) = [b!"ab"] ∧
+    (Conn.runO b!"POST /a HTTP/1.1\r\nTransfer-Encoding: chunked\r\n\r\n3\r\nabc" .open
+        [] (fun _ => ⟨1, 10, 10, .drop⟩)).delivered.map (·.bodyRead) = [[]] ∧
+    (Conn.run b!"POST /a HTTP/1.1\r\nTransfer-Encoding: chunked\r\n\r\n3\r\nabc" .open
+        (fun _ => ⟨1, 10, 10, .drop⟩)).delivered.map (·.bodyRead) = [[]] ∧
+    (Conn.runO b!"POST /a HTTP/1.1\r\nTransfer-Encoding: chunked\r\n\r\n3\r\nabcXX" .eof
+        (List.replicate 200 1) (fun _ => ⟨1, 10, 10, .drop⟩)).delivered.map (fun d => (d.bodyRead, d.readEnd))
+      = [(b!"ab", .err)] ∧
+    (Conn.run b!"POST /a HTTP/1.1\r\nTransfer-Encoding: chunked\r\n\r\n3\r\nabcXX" .eof
+        (fun _ => ⟨1, 10, 10, .drop⟩)).delivered.map (fun d => (d.bodyRead, d.readEnd)) = [([], .err)] := by
+  decide
+
+theorem runO_eq_run_is_false :
+    ¬ (∀ (bs : Bytes) (fin : EndState) (script : Script) (orc : List Nat),
+      Conn.runO bs fin orc script = Conn.run bs fin script) := by
+  intro h
+  have h' := congrArg (fun t => t.delivered.map (·.bodyRead))
+    (h b!"POST /a HTTP/1.1\r\nTransfer-Encoding: chunked\r\n\r\n3\r\nabc" .open
+      (fun _ => ⟨1, 10, 10, .drop⟩) (List.replicate 200 1))
+  simp only at h'
+  rw [chunk_crlf_counterexample.1, chunk_crlf_counterexample.2.2.1] at h'
+  exact absurd h' (by decide)
+
+theorem segmentation_independent_is_false :
+    ¬ (∀ (bs : Bytes) (fin : EndState) (script : Script) (o1 o2 : List Nat),
+      Conn.runO bs fin o1 script = Conn.runO bs fin o2 script) := by
+  intro h
+  have h' := congrArg (fun t => t.delivered.map (·.bodyRead))
+    (h b!"POST /a HTTP/1.1\r\nTransfer-Encoding: chunked\r\n\r\n3\r\nabc" .open
+      (fun _ => ⟨1, 10, 10, .drop⟩) (List.replicate 200 1) [])
+  simp only at h'
+  rw [chunk_crlf_counterexample.1, chunk_crlf_counterexample.2.1] at h'
+  exact absurd h' (by decide)
+
+/-- Main theorem (corrected, unconditional): for every byte stream, every way it ends, every
+    application script and every read oracle, the connection over the oracle socket behaves as
+    in the flat semantics — same delivered requests, same response bytes, same status codes, same
+    ending — up to `Trace.maskPartial`, which forgets `bodyRead` of those delivered requests that
+    have a chunked body and whose reading ended with an error or blocked
+    (`Delivered.lossy`; heads, `readEnd`, `bodyLength`, `last` of these requests are compared). -/
+theorem runO_eq_run_masked (bs : Bytes) (fin : EndState) (script : Script) (orc : List Nat) :
+    (Conn.runO bs fin orc script).maskPartial = (Conn.run bs fin script).maskPartial :=
+  runO_masked bs fin script orc
+
+/-- exact equality whenever the flat trace delivers no chunked request whose body reading ended
+    with an error or blocked (a condition on the flat semantics alone). -/
+theorem runO_eq_run_partial (bs : Bytes) (fin : EndState) (script : Script) (orc : List Nat)
+    (h : ∀ d ∈ (Conn.run bs fin script).delivered, d.lossy = false) :
+    Conn.runO bs fin orc script = Conn.run bs fin script :=
+  Trace.eq_of_mask_eq _ _ (runO_eq_run_masked bs fin script orc) h
+
+/-- the simplest sufficient condition: no body reading ended with an error or blocked. -/
+theorem runO_eq_run_partial_simple (bs : Bytes) (fin : EndState) (script : Script) (orc : List Nat)
+    (h : ∀ d ∈ (Conn.run bs fin script).delivered, d.readEnd ≠ .err ∧ d.readEnd ≠ .pending) :
     Conn.runO bs fin orc script = Conn.run bs fin script := by
-  sorry
+  apply runO_eq_run_partial
+  intro d hd
+  obtain ⟨h1, h2⟩ := h d hd
+  simp [Delivered.lossy, h1, h2]
+
+theorem segmentation_independent_masked (bs : Bytes) (fin : EndState) (script : Script) (o1 o2 : List Nat) :
+    (Conn.runO bs fin o1 script).maskPartial = (Conn.runO bs fin o2 script).maskPartial := by
+  rw [runO_eq_run_masked, runO_eq_run_masked]
+
+theorem segmentation_independent_partial (bs : Bytes) (fin : EndState) (script : Script) (o1 o2 : List Nat)
+    (h : ∀ d ∈ (Conn.run bs fin script).delivered, d.lossy = false) :
+    Conn.runO bs fin o1 script = Conn.runO bs fin o2 script := by
+  rw [runO_eq_run_partial bs fin script o1 h, runO_eq_run_partial bs fin script o2 h]
 
 /-- non-vacuity: one-byte-at-a-time delivery of a chunked request followed by another. -/
 example : (Conn.runO b!"POST /a HTTP/1.1\r\nTransfer-Encoding: chunked\r\n\r\n3\r\nabc\r\n0\r\n\r\nGET /b HTTP/1.1\r\n\r\n" .eof
       (List.replicate 200 1) (fun _ => ⟨1, 10, 2, .drop⟩)).statuses = [500, 500] ∧
     (Conn.runO b!"POST /a HTTP/1.1\r\nTransfer-Encoding: chunked\r\n\r\n3\r\nabc\r\n0\r\n\r\nGET /b HTTP/1.1\r\n\r\n" .eof
       (List.replicate 200 1) (fun _ => ⟨1, 10, 2, .drop⟩)).delivered.map (·.bodyRead) = [b!"abc", []] := by decide
+
+/-- non-vacuity of `runO_eq_run_partial`: its hypothesis holds for that stream. -/
+example : ∀ d ∈ (Conn.run b!"POST /a HTTP/1.1\r\nTransfer-Encoding: chunked\r\n\r\n3\r\nabc\r\n0\r\n\r\nGET /b HTTP/1.1\r\n\r\n" .eof
+      (fun _ => ⟨1, 10, 2, .drop⟩)).delivered, d.lossy = false := by decide
 
 end TH.Props.C13
